@@ -11,12 +11,12 @@ def worker(ctx):
     if ctx.quick:
         ctx.set_budget(90)
         pycommon.run_cases(ctx, ctx.per_shard(480), 10, {"json": True})
-        ctx.set_budget(200)
+        ctx.set_budget(110)
         ccommon.run_std_cases(ctx, ctx.per_shard(64), 12, {"json": True})
     else:
         ctx.set_budget(1500)
         pycommon.run_cases(ctx, ctx.per_shard(8000), 30, {"json": True})
-        ctx.set_budget(3300)
+        ctx.set_budget(1800)
         ccommon.run_std_cases(ctx, ctx.per_shard(640), 40, {"json": True})
 
 
